@@ -588,7 +588,45 @@ size_t varintBitmapEncode(const varintBitmap *vb, uint8_t *buffer) {
 }
 
 varintBitmap *varintBitmapDecode(const uint8_t *buffer, size_t len) {
-    (void)len; /* Unused, but kept for API consistency */
+    /* Validate the header and payload size against 'len' before trusting
+     * any stored count: type (1) + cardinality (4) [+ numRuns (4)] */
+    const size_t headerSize = 1 + sizeof(uint32_t);
+    if (len < headerSize) {
+        return NULL;
+    }
+
+    uint32_t storedCardinality;
+    memcpy(&storedCardinality, buffer + 1, sizeof(uint32_t));
+    switch (buffer[0]) {
+    case VARINT_BITMAP_ARRAY:
+        if (storedCardinality > VARINT_BITMAP_MAX_VALUE ||
+            (len - headerSize) / sizeof(uint16_t) < storedCardinality) {
+            return NULL;
+        }
+        break;
+    case VARINT_BITMAP_BITMAP:
+        if (storedCardinality > VARINT_BITMAP_MAX_VALUE ||
+            len - headerSize < VARINT_BITMAP_BITMAP_SIZE) {
+            return NULL;
+        }
+        break;
+    case VARINT_BITMAP_RUNS: {
+        uint32_t storedRuns;
+        if (len - headerSize < sizeof(uint32_t)) {
+            return NULL;
+        }
+        memcpy(&storedRuns, buffer + headerSize, sizeof(uint32_t));
+        if (storedCardinality > VARINT_BITMAP_MAX_VALUE ||
+            storedRuns > VARINT_BITMAP_MAX_VALUE ||
+            (len - headerSize - sizeof(uint32_t)) / (2 * sizeof(uint16_t)) <
+                storedRuns) {
+            return NULL;
+        }
+        break;
+    }
+    default:
+        return NULL; /* Unknown container type */
+    }
 
     varintBitmap *vb = malloc(sizeof(varintBitmap));
     if (!vb) {
